@@ -29,7 +29,14 @@ import (
 )
 
 const verifDir = "/verif"
-const repoDir = "/repo"
+// repoDir is /repo; VERIF_REPO points the driver at another checkout (used only to try seeded
+// changes on a scratch worktree while other checks are running against /repo).
+var repoDir = func() string {
+	if d := os.Getenv("VERIF_REPO"); d != "" {
+		return d
+	}
+	return "/repo"
+}()
 
 type Violation struct {
 	Property  string `json:"property"`
